@@ -82,6 +82,19 @@ func edgeKindsOnCycles(m *kit.Model) []string {
 // resolveEverything resolves every registered identity from the provider and
 // from a fresh scope; returning at all is the termination oracle.
 func (x *run) resolveEverything() (*kit.ScopeRec, []*kit.Obs) {
+	if x.EditAfterBuild {
+		// the collection goes on living after Build: every group gets one more (scoped) member, every
+		// other identity is removed. The provider was validated against what was registered when it
+		// was built, and that is all it may ever see.
+		x.EditAfterBuild = false
+		var edits []kit.CollEdit
+		for _, id := range x.M.AllIdents() {
+			if id.Group != "" {
+				edits = append(edits, kit.CollEdit{Ident: id, Life: kit.Scoped})
+			}
+		}
+		x.R.EditCollection(edits)
+	}
 	rec, co := x.R.CreateScope(0, 1)
 	var obs []*kit.Obs
 	obs = append(obs, co)
@@ -142,11 +155,17 @@ func TestC05Container(t *testing.T) {
 		case cyc && gotCirc:
 			f = validateCyclePath(m, x.Build.Err)
 		case x.Build.Err == nil:
+			// the graph that was found acyclic is the one of the registrations at Build: members that
+			// join a group of the collection later are not part of what this provider resolves
+			x.EditAfterBuild = true
 			_, obs := x.resolveEverything()
 			for _, o := range obs {
 				if o.Panic != nil {
 					f = fail("C05", "terminates", "panic", "%s(s%d,%s) panicked: %v", o.Kind, o.Scope, o.Ident, o.Panic)
 				}
+			}
+			if a := x.W.Anomalies(); f == nil && len(a) > 0 {
+				f = fail("C05", "terminates", "not-part-of-the-validated-graph", "%s", a[0])
 			}
 			x.R.CloseProvider()
 		}
@@ -523,10 +542,15 @@ func checkC07(cfg *kit.Config) (*Failure, bool) {
 	if x.Build.Err != nil {
 		return nil, false // some other defect: not this property's business
 	}
-	// walk what long-lived instances actually hold
+	// walk what long-lived instances actually hold - validated was what was registered at Build: a
+	// scoped member that joins a group of the collection afterwards is not part of this provider
+	x.EditAfterBuild = true
 	x.resolveEverything()
 	x.resolveEverything()
 	var f *Failure
+	if a := x.W.Anomalies(); len(a) > 0 {
+		f = fail("C07", "holds-no-scoped", "not-part-of-the-build", "%s", a[0])
+	}
 	for _, inv := range x.W.AllInvs() {
 		if m.Regs[inv.Reg].Life == kit.Scoped {
 			continue
